@@ -115,6 +115,8 @@ func (h *Handler) modifyResponse(r *http.Response) error {
 		log.Debug("No content encoding header found")
 	default:
 		h.log.Warn(unsupportedContentEncoding, slog.String("encoding", r.Header.Get("Content-Encoding")))
+		// The body can't be decoded, so pass the response through unmodified.
+		return nil
 	}
 
 	// Read the encoded body.
